@@ -27,6 +27,8 @@ HTML_COLORS = {
   "maroon": (128, 0, 0), "red": (255, 0, 0), "purple": (128, 0, 128), "fuchsia": (255, 0, 255),
   "green": (0, 128, 0), "lime": (0, 255, 0), "olive": (128, 128, 0), "yellow": (255, 255, 0),
   "navy": (0, 0, 128), "blue": (0, 0, 255), "teal": (0, 128, 128), "aqua": (0, 255, 255),
+  # the two further names of TTML2 <named-color> (synonyms of aqua and fuchsia)
+  "cyan": (0, 255, 255), "magenta": (255, 0, 255),
 }
 
 MAX_MS = ((999 * 60 + 59) * 60 + 59) * 1000 + 999
@@ -54,7 +56,7 @@ def parse_color(value: str):
     return [int(m.group(1), 16), int(m.group(2), 16), int(m.group(3), 16), int(m.group(4), 16) if m.group(4) else 255]
   rgb = HTML_COLORS.get(value.lower())
   if rgb is None:
-    raise Abstain(f"colour {value!r} is neither #rrggbb[aa] nor one of the 16 HTML 4 names")
+    raise Abstain(f"colour {value!r} is neither #rrggbb[aa] nor one of the 16 HTML 4 names / cyan / magenta")
   return [rgb[0], rgb[1], rgb[2], 255]
 
 
